@@ -294,7 +294,7 @@ func c21(c *report.Check) {
 	defer scratchCleanup()
 	// depth: full enumeration over the whole alphabet (degenerate hash; chord.Hash one less in quick);
 	// coreDepth: additional length over the core alphabet; bfsDepth; bigDepth: multi-segment variant
-	depth, coreDepth, bfsDepth, bigDepth := 3, 4, 5, 4
+	depth, coreDepth, bfsDepth, bigDepth := 3, 3, 4, 3
 	if c.Thorough() {
 		depth, coreDepth, bfsDepth, bigDepth = 4, 5, 8, 5
 	}
